@@ -2,10 +2,10 @@
 # confirm_seed.sh <dir with patch.diff + build_and_run.sh> <tag>
 # Confirms a seeded change in a scratch worktree of /repo's HEAD: demo passes without the change,
 # the change applies and compiles, the shipped test suite still passes, the demo fails with it.
-D="$1"; TAG="$2"; WT=/tmp/cs-$TAG
+D="$1"; TAG="$2"; PATCH="${3:-patch.diff}"; WT=/tmp/cs-$TAG
 rm -rf $WT; /verif/tools/mkworktree.sh $WT >/dev/null 2>&1 || { echo "$TAG: worktree failed"; exit 1; }
 ( cd $D && sh ./build_and_run.sh $WT ) >/tmp/cs-$TAG.base.log 2>&1; base=$?
-if ! git -C $WT apply $D/patch.diff 2>/tmp/cs-$TAG.apply.log; then echo "$TAG: base_demo=$base PATCH DOES NOT APPLY"; git -C /repo worktree remove --force $WT; exit 2; fi
+if ! git -C $WT apply $D/$PATCH 2>/tmp/cs-$TAG.apply.log; then echo "$TAG: base_demo=$base PATCH DOES NOT APPLY"; git -C /repo worktree remove --force $WT; exit 2; fi
 ( cd $WT && make -j8 >/tmp/cs-$TAG.make.log 2>&1 ); mk=$?
 pass=$( cd $WT && make -j8 check 2>&1 | grep "^# PASS" | awk '{print $3}' )
 ( cd $D && sh ./build_and_run.sh $WT ) >/tmp/cs-$TAG.mut.log 2>&1; mut=$?
